@@ -58,8 +58,15 @@ R.contract(
 STEP_PARAMS = dict(problem="Problem", evaluator="Evaluator", representation="Representation", random="RandomSource",
                    population="iter[Individual]", target_size="int", generation="int")
 STEP_REQ = {"target_nonneg": "target_size >= 0", "enough_individuals": "avail(population) >= target_size"}
-STEP_ENS = {"exactly_k": "len(result) == target_size"}
-STEP_MOD = ["random.*", "evaluator.count", "problem.ff.fn.ncalls", "all:dict", "all:field:phenotype"]
+STEP_ENS = {
+    "exactly_k": "len(result) == target_size",
+    # C09: whatever a step does, fitness values already cached on any individual stay as they were (stores only
+    # grow) and a phenotype, once cached, is never replaced; genotypes and the population container are outside
+    # every step's frame (modifies)
+    "cached_fitness_kept": "fitness_stores_monotone()",
+    "phenotype_cache_stable": "phenotypes_sticky()",
+}
+STEP_MOD = ["random.*", "evaluator.count", "problem.ff.fn.ncalls", "all:dict[Problem,Fitness]", "all:field:phenotype"]
 for m in ("iterate", "apply"):
     R.contract(
         f"GeneticStep.{m}",
@@ -83,7 +90,7 @@ R.contract(
     ensures=dict(STEP_ENS),
     loops={0: Loop(invariants={"copied": "len(OUT) == _k and len(current) == _k"}, modifies=["OUT[]", "current[]"])},
     modifies=list(STEP_MOD),
-    props=["C15"],
+    props=["C15", "C09"],
 )
 R.contract("GeneticStep.pre_iterate", params=dict(self="GeneticStep", **STEP_PARAMS), returns="None", allocates=False, verify=False)
 R.contract("GeneticStep.post_iterate", params=dict(self="GeneticStep", **STEP_PARAMS), returns="None", allocates=False, verify=False)
@@ -97,7 +104,7 @@ R.contract(
     requires=dict(STEP_REQ),
     loops={0: Loop(invariants={"count": "len(OUT) == _k"}, modifies=["OUT[]"])},
     modifies=[],
-    props=["C15"],
+    props=["C15", "C09"],
 )
 R.contract(
     "ParallelStep.iterate",
@@ -116,12 +123,13 @@ R.contract(
             invariants={
                 "telescoping": "len(OUT) == ite(_k == 0, 0, ranges[_k - 1][1])",
                 "population_intact": "len(npopulation) >= target_size",
+                "cached_fitness_kept": "fitness_stores_monotone()", "phenotype_cache_stable": "phenotypes_sticky()",
             },
             modifies=["OUT[]"] + STEP_MOD,
         )
     },
     modifies=list(STEP_MOD),
-    props=["C15", "C16"],
+    props=["C15", "C16", "C09"],
 )
 R.contract(
     "ExclusiveParallelStep.iterate",
@@ -140,12 +148,13 @@ R.contract(
             invariants={
                 "telescoping": "len(OUT) == ite(_k == 0, 0, ranges[_k - 1][1])",
                 "population_intact": "len(npopulation) >= target_size",
+                "cached_fitness_kept": "fitness_stores_monotone()", "phenotype_cache_stable": "phenotypes_sticky()",
             },
             modifies=["OUT[]"] + STEP_MOD,
         )
     },
     modifies=list(STEP_MOD),
-    props=["C15"],
+    props=["C15", "C09"],
 )
 
 # ---- helpers used by the steps ---------------------------------------------------------------------------
@@ -161,12 +170,13 @@ R.contract(
     ensures={
         "all_evaluated": "forall(0, len(individuals), lambda k: problem in individuals[k].fitness_store)",
         "existing_fitness_kept": "fitness_stores_monotone()",
+        "phenotype_cache_stable": "phenotypes_sticky()",
         "list_unchanged": "len(individuals) == oldlen(individuals) and forall(0, len(individuals), lambda k: same(individuals[k], oldel(individuals, k)))",
         "counter_bounds": "self.count >= old(self.count) and self.count <= old(self.count) + len(individuals)",
     },
     loops={0: Loop(invariants={"t": "True"}, modifies=[])},
-    modifies=["self.count", "problem.ff.fn.ncalls", "all:dict", "all:field:phenotype"],
-    props=["C13", "C15", "C16", "C17"],
+    modifies=["self.count", "problem.ff.fn.ncalls", "all:dict[Problem,Fitness]", "all:field:phenotype"],
+    props=["C13", "C15", "C16", "C17", "C09"],
 )
 R.contract(
     "Individual.ensure_fitness",
@@ -229,8 +239,8 @@ R.contract(
         "(WIT_INV[e] < target_size and same(new_population[WIT_INV[e]], candidates[e])) or "
         "new_population[j].fitness_store[problem].maximizing_aggregate >= candidates[e].fitness_store[problem].maximizing_aggregate))",
     },
-    modifies=["evaluator.count", "problem.ff.fn.ncalls", "all:dict", "all:field:phenotype"],
-    props=["C15", "C16", "C13"],
+    modifies=["evaluator.count", "problem.ff.fn.ncalls", "all:dict[Problem,Fitness]", "all:field:phenotype"],
+    props=["C15", "C16", "C13", "C09"],
 )
 
 # ---- remaining steps ---------------------------------------------------------------------------------------
@@ -295,8 +305,8 @@ R.contract(
         "winner_beats_every_participant": "forall(0, len(candidates), lambda c: "
         "yielded.fitness_store[problem].maximizing_aggregate >= candidates[c].fitness_store[problem].maximizing_aggregate)",
     },
-    modifies=["random.*", "evaluator.count", "problem.ff.fn.ncalls", "all:dict", "all:field:phenotype"],
-    props=["C15", "C17", "C13"],
+    modifies=["random.*", "evaluator.count", "problem.ff.fn.ncalls", "all:dict[Problem,Fitness]", "all:field:phenotype"],
+    props=["C15", "C17", "C13", "C09"],
 )
 
 R.contract(
@@ -320,7 +330,7 @@ R.contract(
     requires={"target_nonneg": "target_size >= 0"},
     loops={0: Loop(invariants={"count": "len(OUT) == _k"}, modifies=["OUT[]", "random.*"])},
     modifies=["random.*"],
-    props=["C15"],
+    props=["C15", "C09"],
 )
 R.contract(
     "GenericMutationStep.iterate",
@@ -331,7 +341,7 @@ R.contract(
     requires={**STEP_REQ, "representation_mutates": "isinstance(representation, RepresentationWithMutation)"},
     loops={0: Loop(invariants={"count": "len(OUT) == ite(_k < target_size, _k, target_size)"}, modifies=["OUT[]", "random.*"])},
     modifies=["random.*"],
-    props=["C15"],
+    props=["C15", "C09"],
 )
 R.contract(
     "GenericCrossoverStep.crossover",
@@ -354,7 +364,7 @@ R.contract(
     loops={0: Loop(invariants={"count": "len(OUT) == 2 * _k", "population_kept": "len(npopulation) == old(avail(population))"},
                    modifies=["OUT[]", "random.*"])},
     modifies=["random.*"],
-    props=["C15"],
+    props=["C15", "C09"],
 )
 R.contract(
     "EvaluateStep.iterate",
@@ -363,8 +373,8 @@ R.contract(
     params=dict(self="EvaluateStep", **STEP_PARAMS),
     returns="iter[Individual]",
     requires={**STEP_REQ, **DISTINCT},
-    modifies=["evaluator.count", "problem.ff.fn.ncalls", "all:dict", "all:field:phenotype"],
-    props=["C15", "C13"],
+    modifies=["evaluator.count", "problem.ff.fn.ncalls", "all:dict[Problem,Fitness]", "all:field:phenotype"],
+    props=["C15", "C13", "C09"],
 )
 R.contract(
     "SequenceStep.iterate",
@@ -373,10 +383,10 @@ R.contract(
     params=dict(self="SequenceStep", **STEP_PARAMS),
     returns="iter[Individual]",
     requires={**STEP_REQ, "at_least_one_step": "len(self.steps) >= 1"},
-    loops={0: Loop(invariants={"enough": "avail(npopulation) >= target_size", "exact_after_first": "implies(_k >= 1, avail(npopulation) == target_size)"},
+    loops={0: Loop(invariants={"enough": "avail(npopulation) >= target_size", "exact_after_first": "implies(_k >= 1, avail(npopulation) == target_size)", "cached_fitness_kept": "fitness_stores_monotone()", "phenotype_cache_stable": "phenotypes_sticky()"},
                    modifies=list(STEP_MOD))},
     modifies=list(STEP_MOD),
-    props=["C15"],
+    props=["C15", "C09"],
 )
 
 # ---- initialisers, Population, GP ---------------------------------------------------------------------------
@@ -444,7 +454,7 @@ R.contract(
     params=dict(self="SingleObjectiveProgressTracker", individual="Individual"),
     returns="None",
     ensures={"evaluated": "self.problem in individual.fitness_store", "existing_fitness_kept": "fitness_stores_monotone()"},
-    modifies=["self.best_individual", "self.hist[]", "class:SearchRecorder", "self.evaluator.count", "self.problem.ff.fn.ncalls", "all:dict", "all:field:phenotype"],
+    modifies=["self.best_individual", "self.hist[]", "class:SearchRecorder", "self.evaluator.count", "self.problem.ff.fn.ncalls", "all:dict[Problem,Fitness]", "all:field:phenotype"],
     verify=False,
     note="summary of evaluate([individual]) (verified as SingleObjectiveProgressTracker.evaluate) for use inside Population",
 )
@@ -459,13 +469,13 @@ R.contract(
         "tracker_kept": "same(self.tracker, tracker)",
     },
     loops={0: Loop(invariants={"count": "len(self.individuals) == _k and fresh(self.individuals) and same(self.tracker, tracker)"},
-                   modifies=["self.individuals[]", "all:dict", "all:field:phenotype", "tracker.best_individual", "tracker.hist[]",
+                   modifies=["self.individuals[]", "all:dict[Problem,Fitness]", "all:dict[~Str,int]", "all:field:phenotype", "tracker.best_individual", "tracker.hist[]",
                              "class:SearchRecorder", "tracker.evaluator.count", "tracker.problem.ff.fn.ncalls"])},
-    modifies=["self.*", "all:dict", "all:field:phenotype", "tracker.best_individual", "tracker.hist[]", "class:SearchRecorder",
+    modifies=["self.*", "all:dict[Problem,Fitness]", "all:dict[~Str,int]", "all:field:phenotype", "tracker.best_individual", "tracker.hist[]", "class:SearchRecorder",
               "tracker.evaluator.count", "tracker.problem.ff.fn.ncalls"],
     consumes=["it"],
     props=["C15", "C13"],
-    note="ind.metadata['generation'] = generation is a write to a per-individual dict (covered by all:dict)",
+    note="ind.metadata['generation'] = generation is a write to a per-individual dict (covered by all:dict[~Str,int])",
 )
 
 R.cls("GeneticProgramming", bases=["HeuristicSearch"], fields={"population_size": "int", "population_initializer": "PopulationInitializer", "step": "GeneticStep"}, file=GPF)
@@ -491,11 +501,11 @@ R.contract(
                 "self.budget.evaluations_budget == old(self.budget.evaluations_budget) and same(self.tracker.evaluator, old(self.tracker.evaluator)) and "
                 "same(population.tracker, self.tracker)",
             },
-            modifies=["self.random.*", "all:dict", "all:field:phenotype", "self.tracker.best_individual", "self.tracker.hist[]", "class:SearchRecorder",
+            modifies=["self.random.*", "all:dict[Problem,Fitness]", "all:dict[~Str,int]", "all:field:phenotype", "self.tracker.best_individual", "self.tracker.hist[]", "class:SearchRecorder",
                       "self.tracker.evaluator.count", "self.tracker.problem.ff.fn.ncalls", "self.problem.ff.fn.ncalls"],
         )
     },
-    modifies=["self.random.*", "all:dict", "all:field:phenotype", "self.tracker.best_individual", "self.tracker.hist[]", "class:SearchRecorder",
+    modifies=["self.random.*", "all:dict[Problem,Fitness]", "all:dict[~Str,int]", "all:field:phenotype", "self.tracker.best_individual", "self.tracker.hist[]", "class:SearchRecorder",
               "self.tracker.evaluator.count", "self.tracker.problem.ff.fn.ncalls", "self.problem.ff.fn.ncalls"],
     props=["C15", "C12"],
     note="partial correctness only: termination of GP depends on the step producing unevaluated individuals (DESIGN.md 3/C14)",
